@@ -236,7 +236,17 @@ pub fn generate(_prop: &str, _tier: Tier, seed: u64, run: u64) -> Sc {
     k.defs = knobs.range(0, 4) as usize;
     k.allow_empty = false;
     k.max_depth = knobs.range(1, 3) as usize;
-    let env = gen_env(&mut wl, &k);
+    let mut env = gen_env(&mut wl, &k);
+    if wl.chance(1, 2) {
+        // a definition that is optional only through its name: upgrade steps add fields of this type
+        let body = match wl.below(4) {
+            0 => SType::Prim(Prim::Null),
+            1 => SType::Prim(Prim::Reserved),
+            2 => SType::opt(SType::name("TOpt")), // recursive option
+            _ => SType::opt(gen_data_type(&mut wl, &k, &env)),
+        };
+        env.0.insert("TOpt".into(), body);
+    }
     let v0 = gen_service(&mut wl, &k, &env);
     let nver = knobs.range(1, 6) as usize;
     let mut versions = vec![v0];
@@ -307,7 +317,10 @@ pub fn generate(_prop: &str, _tier: Tier, seed: u64, run: u64) -> Sc {
     let npairs = knobs.range(2, 8);
     let corp = corpus::corpus();
     for _ in 0..npairs {
-        let (s, r) = if wl.chance(1, 2) {
+        let (s, r) = if wl.chance(1, 6) {
+            let (a, b) = *wl.pick(&[("OldList", "NewList"), ("NatTree", "IntTree"), ("Vec<NatTree>", "Option<IntTree>"), ("RecV1", "RecV2"), ("RecV2", "RecV3"), ("(OldList,u8)", "NewList"), ("Vec<OldList>", "Vec<OldList>"), ("ServRefU", "ServRefU")]);
+            (a.to_string(), b.to_string())
+        } else if wl.chance(1, 2) {
             (wl.pick(&FAMILIES).to_string(), wl.pick(&FAMILIES).to_string())
         } else {
             (corp[wl.usize(corp.len())].name.clone(), if wl.chance(1, 2) { wl.pick(&FAMILIES).to_string() } else { corp[wl.usize(corp.len())].name.clone() })
